@@ -75,24 +75,80 @@ var commonAssumptions = []string{
 func init() {
 	propSpecs = []*PropSpec{
 		{
-			ID: "C01",
-			Rules: []RuleUse{use("R-DISPATCH", "v5"), use("R-REPLACE", "v5"), use("R-MOVE", "v5"), use("R-COPYISO", "v5")},
-			Explanation: "Decided for the v5 body: R-DISPATCH (all six RFC 6902 operations reach the handler with that operation's container effects; validator table = RFC 6902 §4; verdict cannot be bypassed), R-REPLACE (replace requires the target to exist), R-MOVE (move = get, remove of the same container/key, destination resolved after the removal, add of that same value), R-COPYISO (copy inserts a fresh deep duplicate, never an alias).",
+			ID:          "C01",
+			Rules:       []RuleUse{use("R-DISPATCH", "v5"), use("R-REPLACE", "v5"), use("R-MOVE", "v5"), use("R-COPYISO", "v5"), use("R-TYPESTATE", "v5")},
+			Explanation: "Decided for the v5 body: R-DISPATCH (all six RFC 6902 operations reach the handler with that operation's container effects; validator table = RFC 6902 §4; verdict cannot be bypassed), R-REPLACE (replace requires the target to exist), R-MOVE (move = get, remove of the same container/key, destination resolved after the removal, add of that same value), R-COPYISO (copy inserts a fresh deep duplicate, never an alias), R-TYPESTATE (a null root is held as a nil container that every later operation rejects instead of dereferencing).",
 			NotDecided:  "that the resulting values equal the RFC 6902 result (value-level: needs the contents of the lazily parsed byte slices); the null-equivalence clause (add null then test null); index semantics beyond range safety.",
 			Trusted:     commonTrusted, Assumptions: commonAssumptions,
 		},
 		{
-			ID: "C08",
-			Rules: []RuleUse{use("R-RETSHAPE", "v5")},
-			Explanation: "Decided for the v5 body: R-RETSHAPE (every return of the Apply family and of the functions whose result tuples they pass through has a nil document or a nil error; in the operation loop every handler's error is tested before the back edge and the non-nil edge returns (nil, err), so no later operation runs after the first failure).",
-			NotDecided:  "which sentinel an error carries (R-ERRCHAIN, not built yet); that a patch whose operations all succeed never errors (final marshal).",
+			ID:          "C02",
+			Rules:       []RuleUse{{Rule: "R-GATE", Bodies: []string{"v5", "codec"}, KeyHas: []string{"MergePatch", "sink "}}, use("R-MERGEWIRE", "v5"), {Rule: "R-NIL", Bodies: []string{"v5"}, KeyHas: []string{"doMergePatch", "merge", "prune"}}},
+			Explanation: "Decided for the v5 body: R-GATE (both inputs of MergePatch pass json.Valid before the validity-assuming parse), R-MERGEWIRE (MergePatch runs doMergePatch in apply mode with its parameters in order), R-NIL over doMergePatch/merge/mergeDocs/prune* (the nil nodes that stand for null members are never dereferenced).",
+			NotDecided:  "that the recursive member-by-member result equals RFC 7396 MergePatch(doc, patch) (value-level); the 'non-object document is treated as {}' clause.",
 			Trusted:     commonTrusted, Assumptions: commonAssumptions,
 		},
 		{
-			ID: "C11",
-			Rules: []RuleUse{use("R-GATE", "v5", "codec"), use("R-DISPATCH", "v5"), use("R-RETSHAPE", "v5")},
-			Explanation: "Decided for the v5 body: R-GATE (malformed JSON is rejected before the validity-assuming parse), R-DISPATCH (b) (the accept/reject decision table kind × required member, extracted from validateOperation by partial evaluation per kind, equals RFC 6902 §4 in the library's dialect; unknown kinds are rejected; Operation.value() is nil only when the member is absent), R-DISPATCH (d) (every element is validated and a rejection reaches a (nil, error) return of DecodePatch), R-RETSHAPE (nil patch with every error).",
+			ID:          "C03",
+			Rules:       []RuleUse{{Rule: "R-GATE", Bodies: []string{"v5", "codec"}, KeyHas: []string{"CreateMergePatch", "sink "}}, {Rule: "R-NIL", Bodies: []string{"v5"}, KeyHas: []string{"createArrayMergePatch", "createObjectMergePatch"}}},
+			Explanation: "Decided for the v5 body: R-GATE (malformed input to CreateMergePatch is rejected before the validity-assuming parse), R-NIL over the create*MergePatch functions.",
+			NotDecided:  "the round-trip law MergePatch(A, P) = B and minimality (value-level); deletion-as-null completeness.",
+			Trusted:     commonTrusted, Assumptions: commonAssumptions,
+		},
+		{
+			ID:          "C04",
+			Rules:       []RuleUse{use("R-GATE", "v5", "codec"), use("R-NIL"), use("R-TYPESTATE"), use("R-RAW"), use("R-STALERAW"), use("R-DISPATCH"), use("R-REPLACE")},
+			Explanation: "Decided for both library bodies, as a census of potential panic sites: R-GATE (every exported []byte parameter passes json.Valid before any validity-assuming parse, which panics on ill-formed text), R-NIL (every dereference of a node/container/raw message that may be the nil spelling of null is guarded on every path), R-TYPESTATE (which==eDoc implies a non-nil doc; a nil array container is confined to the root slot and scratch nodes and every consumer tests for it), R-RAW (raw is dereferenced only where it cannot be nil), R-STALERAW (raw bytes are re-read as content only while the node is unparsed), R-DISPATCH (handlers dereference only the members the validator requires for their kind), R-REPLACE (set on an array only after a successful get of the same slot, which is what bounds its index).",
+			NotDecided:  "termination and stack exhaustion; panics inside the inherited decoder/encoder and reflect on well-formed input (trusted codec contract); run-time out-of-memory.",
+			Trusted:     commonTrusted, Assumptions: commonAssumptions,
+		},
+		{
+			ID:          "C06",
+			Rules:       []RuleUse{{Rule: "R-GATE", Bodies: []string{"v5", "codec"}, KeyHas: []string{"Equal", "sink "}}, {Rule: "R-NIL", Bodies: []string{"v5"}, KeyHas: []string{"Equal", ".equal", "tryDoc", "tryAry", "compact", "isNull", "nextByte"}}, {Rule: "R-TYPESTATE", Bodies: []string{"v5"}, KeyHas: []string{".equal", "tryDoc", "tryAry"}}, {Rule: "R-RAW", Bodies: []string{"v5"}, KeyHas: []string{"compact", "tryDoc", "tryAry", "nextByte", "newLazyNode"}}, {Rule: "R-STALERAW", Bodies: []string{"v5"}, KeyHas: []string{".equal", "isNull", "compact", "tryDoc", "tryAry"}}},
+			Explanation: "Decided for the v5 body: R-GATE on both parameters of Equal with the invalid edge returning false, R-NIL + R-TYPESTATE + R-RAW + R-STALERAW over Equal, (*lazyNode).equal, tryDoc, tryAry, compact, isNull (Equal is total: null roots, nulls inside arrays and as members, an array against null never dereference a nil node; comparison never re-reads stale bytes of a parsed node).",
+			NotDecided:  "reflexivity/symmetry/transitivity and agreement with an independent deep comparison (value-level); string comparison after unescaping.",
+			Trusted:     commonTrusted, Assumptions: commonAssumptions,
+		},
+		{
+			ID:          "C07",
+			Rules:       []RuleUse{use("R-MERGEWIRE", "v5"), {Rule: "R-GATE", Bodies: []string{"v5", "codec"}, KeyHas: []string{"MergeMergePatches", "sink "}}},
+			Explanation: "Decided for the v5 body: R-MERGEWIRE (MergeMergePatches runs doMergePatch in combine mode, constant true, with its parameters in order), R-GATE (both patches pass json.Valid).",
+			NotDecided:  "the composition law over all (D, P1, P2) (value-level).",
+			Trusted:     commonTrusted, Assumptions: commonAssumptions,
+		},
+		{
+			ID:          "C08",
+			Rules:       []RuleUse{use("R-RETSHAPE", "v5")},
+			Explanation: "Decided for the v5 body: R-RETSHAPE (every return of the Apply family and of the functions whose result tuples they pass through has a nil document or a nil error; in the operation loop every handler's error is tested before the back edge and the non-nil edge returns (nil, err), so no later operation runs after the first failure).",
+			NotDecided:  "that a patch whose operations all succeed never errors (final marshal).",
+			Trusted:     commonTrusted, Assumptions: commonAssumptions,
+		},
+		{
+			ID:          "C11",
+			Rules:       []RuleUse{{Rule: "R-GATE", Bodies: []string{"v5", "codec"}, KeyHas: []string{"DecodePatch", "sink "}}, use("R-DISPATCH", "v5"), {Rule: "R-RETSHAPE", Bodies: []string{"v5"}, KeyHas: []string{"DecodePatch"}}, {Rule: "R-NIL", Bodies: []string{"v5"}, KeyHas: []string{"(Operation)"}}},
+			Explanation: "Decided for the v5 body: R-GATE (malformed JSON is rejected before the validity-assuming parse), R-DISPATCH (b) (the accept/reject decision table kind × required member, extracted from validateOperation by partial evaluation per kind, equals RFC 6902 §4 in the library's dialect; unknown kinds are rejected; Operation.value() is nil only when the member is absent), R-DISPATCH (d) (every element is validated and a rejection reaches a (nil, error) return of DecodePatch), R-RETSHAPE (nil patch with every error), R-NIL over the Operation accessors.",
 			NotDecided:  "type errors inside members (a numeric path) are rejected by the codec's unmarshal-into-string, which is trusted; accessor results equal the decoded members (value-level).",
+			Trusted:     commonTrusted, Assumptions: commonAssumptions,
+		},
+		{
+			ID:          "C16",
+			Rules:       []RuleUse{use("R-GATE", "v5", "codec")},
+			Explanation: "Decided: R-GATE (every public v5 entry point consults json.Valid on each []byte parameter before parsing; the invalid edge returns an error / false).",
+			NotDecided:  "that the decoding pass agrees with the scanner on valid input (trusted codec contract); acceptance by the legacy package is the standard library's.",
+			Trusted:     commonTrusted, Assumptions: commonAssumptions,
+		},
+		{
+			ID:          "C18",
+			Rules:       []RuleUse{use("R-DISPATCH", "legacy"), use("R-REPLACE", "legacy"), use("R-MOVE", "legacy"), use("R-COPYISO", "legacy"), {Rule: "R-NIL", Bodies: []string{"legacy"}, KeyHas: []string{"(Patch)", "(*partial", "findObject", "(*lazyNode)", "deepCopy", "newLazyNode", "(Operation)"}}, use("R-RAW", "legacy"), use("R-STALERAW", "legacy"), use("R-RETSHAPE", "legacy")},
+			Explanation: "Decided on the legacy body (which no baseline test compiles): R-DISPATCH (a) (six kinds reach their handlers, unknown kind is an error), R-REPLACE, R-MOVE, R-COPYISO, R-NIL + R-RAW + R-STALERAW (no nil-node or nil-raw dereference), R-RETSHAPE (no document with an error; first failure ends the loop).",
+			NotDecided:  "value-level RFC 6902 equivalence.",
+			Trusted:     commonTrusted, Assumptions: commonAssumptions,
+		},
+		{
+			ID:          "C19",
+			Rules:       []RuleUse{use("R-MERGEWIRE", "legacy"), {Rule: "R-NIL", Bodies: []string{"legacy"}, KeyHas: []string{"doMergePatch", "merge", "prune", "Equal", ".equal", "createArrayMergePatch"}}},
+			Explanation: "Decided on the legacy body: R-MERGEWIRE (mode flags and parameter order of MergePatch / MergeMergePatches), R-NIL over the merge walk and equal (no nil-node dereference).",
+			NotDecided:  "the merge, diff and composition laws themselves (value-level).",
 			Trusted:     commonTrusted, Assumptions: commonAssumptions,
 		},
 	}
